@@ -659,6 +659,9 @@ func (x *xl) selector(t *ast.SelectorExpr, want *gty) (string, *gty, error) {
 		return v.coq, v.ty, nil
 	}
 	// struct field through a path of in-package structs
+	if id, ok := t.X.(*ast.Ident); ok && x.zeroStructs[id.Name] {
+		return "", nil, errf("field `%s` of a struct declared inside the fragment is outside the subset", text)
+	}
 	if _, c, sname, ok := x.structPath(t.X); ok {
 		ft, err := x.structField(sname, t.Sel.Name)
 		if err != nil {
